@@ -3,7 +3,8 @@
    excluded by a guard, and Print Assumptions. *)
 From Coq Require Import ZArith List Bool Arith Sorted Permutation.
 From Coq.Strings Require Import Byte.
-From Verif Require Import Lib.Bytes Model.Wire Model.Multisig Proofs.MultisigSort Proofs.MultisigSign.
+From Verif Require Import Lib.Bytes Model.Wire Model.Multisig Proofs.MultisigSort Proofs.MultisigSign
+  Proofs.MultisigFields.
 Import ListNotations.
 Open Scope Z_scope.
 
@@ -122,6 +123,120 @@ Example m_signers_suffice_dict_oversigned_refuted :
        ObRaise = ObPushed false.
 Proof. vm_compute. reflexivity. Qed.
 
+(* --- the spend that is handed around: the fields every signature commits to ---------------------------------
+   version, locktime, every input's outpoint / sequence / amount / script code, the outputs *)
+
+(* creation: replace_by_fee is signalled on every input (BIP125: sequence below 0xfffffffe) ... *)
+Theorem create_signals_rbf : forall ev afs sp f, lib_create_fields ev afs sp = Some f -> sp_rbf sp = true ->
+  Forall (fun i => ti_seq i = x_seq_rbf) (tf_ins f).
+Proof. exact create_rbf_lemma. Qed.
+
+(* ... and only when asked for *)
+Theorem create_no_rbf_unasked : forall ev afs sp f, lib_create_fields ev afs sp = Some f -> sp_rbf sp = false ->
+  Forall (fun i => x_seq_locktime <= ti_seq i) (tf_ins f).
+Proof. exact create_not_rbf_lemma. Qed.
+
+(* an explicit locktime is the transaction's locktime and no input is final, so it is enforced *)
+Theorem create_locktime_enforced : forall ev afs sp f, lib_create_fields ev afs sp = Some f ->
+  0 < sp_locktime sp < 4294967295 ->
+  tf_locktime f = sp_locktime sp /\ Forall (fun i => ti_seq i < x_seq_final) (tf_ins f).
+Proof. exact create_locktime_lemma. Qed.
+
+(* inputs are the requested ones with the same sequence on all of them; version 1 *)
+Theorem create_inputs : forall ev afs sp f, lib_create_fields ev afs sp = Some f ->
+  tf_version f = 1 /\
+  tf_locktime f = lib_tx_locktime afs (ev_blockcount ev) (sp_locktime sp) /\
+  map ti_seq (tf_ins f) =
+    map (fun _ => lib_default_sequence (sp_rbf sp) (lib_tx_locktime afs (ev_blockcount ev) (sp_locktime sp))) (sp_ins sp) /\
+  map ti_rest (tf_ins f) = sp_ins sp.
+Proof. exact create_ins_seq. Qed.
+
+(* the requested outputs come first, unchanged; the fee is the requested one unless a remainder of at most the
+   dust limit is left, which is added to it; a larger remainder is paid to number_of_change_outputs outputs *)
+Theorem create_amounts : forall ev afs sp f, lib_create_fields ev afs sp = Some f -> (1 <= sp_nchange sp)%nat ->
+  let tin := zsum (map ti_value (tf_ins f)) in
+  let tout := zsum (map to_value (tf_outs f)) in
+  firstn (length (sp_outs sp)) (map to_value (tf_outs f)) = sp_outs sp /\
+  sp_fee sp <= tin - tout <= sp_fee sp + Z.max 0 (ev_dust ev) /\
+  (ev_dust ev < tin - zsum (sp_outs sp) - sp_fee sp -> tin - tout = sp_fee sp /\
+     length (tf_outs f) = (length (sp_outs sp) + sp_nchange sp)%nat).
+Proof. exact create_balance_lemma. Qed.
+
+Example create_example :
+  lib_create_fields {| ev_blockcount := 1; ev_dust := 1000; ev_confirms := 10 |} true
+    {| sp_rbf := true; sp_locktime := 0; sp_fee := 30000; sp_outs := [1000000; 2000000]; sp_nchange := 2;
+       sp_ins := [(0, 100000000, 0); (3, 100000000, 1)]; sp_minconf := None |} =
+  Some {| tf_version := 1; tf_locktime := 1;
+          tf_ins := [ {| ti_prev := 0; ti_seq := 4294967293; ti_value := 100000000; ti_code := 0 |};
+                      {| ti_prev := 3; ti_seq := 4294967293; ti_value := 100000000; ti_code := 1 |} ];
+          tf_outs := [ {| to_dest := 0; to_value := 1000000 |}; {| to_dest := 1; to_value := 2000000 |};
+                       {| to_dest := -1; to_value := 98485000 |}; {| to_dest := -2; to_value := 98485000 |} ] |}.
+Proof. vm_compute. reflexivity. Qed.
+
+(* hand-off by Transaction object, by as_dict() and by raw hex: the importing wallet, whatever its settings,
+   rebuilds exactly these fields *)
+Theorem handoff_preserves_committed_fields : forall h afs blockcount f,
+  ms_channel_fields h afs blockcount f = f.
+Proof. exact channel_preserves_lemma. Qed.
+
+(* exactly m distinct signers suffice, for the spend AS CREATED: over any chain of object hand-offs and of dict
+   hand-offs (while at most m signatures exist), whatever the settings of the wallets, the committed fields never
+   change, the signatures are those of the cosigners that signed, and the transaction
+   verifies / is pushed exactly when at least m of them did *)
+Theorem m_signers_suffice_committed : forall bc f keys m ops, NoDup keys -> (1 <= m)%nat ->
+  ms_chain_ok keys m [] (map cop_plain ops) = true -> cs_chain_ok bc f ops = true ->
+  let cst := cs_final m bc (cs_init f [keys]) ops in
+  let S := ms_signers [] (map cop_plain ops) in
+  cs_fields cst = f /\
+  map mi_sigs (st_ins (cs_st cst)) = [ms_sigs_of keys S] /\
+  st_verified (cs_st cst) = Nat.leb m (length (ms_sigs_of keys S)) /\
+  snd (cs_step m bc cst CSend) = ObPushed (Nat.leb m (length (ms_sigs_of keys S))).
+Proof. exact committed_chain_lemma. Qed.
+
+(* non-vacuity: a replace-by-fee spend, 2-of-3, object hand-offs between wallets of different settings; and an
+   ordinary spend over a dict hand-off into a wallet with anti-fee-sniping on *)
+Example m_signers_committed_example :
+  cs_chain_ok 1 rbf_spend [CSign (Some 0); CHand HObject false; CSign (Some 2); CHand HObject true; CSend] = true /\
+  cs_run 2 1 (cs_init rbf_spend [[1; 2; 0]]) [CSign (Some 0); CHand HObject false; CSign (Some 2); CHand HObject true; CSend] =
+    [ (ObState false [[ms_mk 0]], rbf_spend, O); (ObState false [[ms_mk 0]], rbf_spend, O);
+      (ObState true [[ms_mk 2; ms_mk 0]], rbf_spend, O); (ObState true [[ms_mk 2; ms_mk 0]], rbf_spend, O);
+      (ObPushed true, rbf_spend, O) ] /\
+  cs_chain_ok 1 default_spend [CSign (Some 0); CHand HDict true; CSign (Some 2); CSend] = true /\
+  map fst (cs_run 2 1 (cs_init default_spend [[1; 2; 0]]) [CSign (Some 0); CHand HDict true; CSign (Some 2); CSend]) =
+    [ (ObState false [[ms_mk 0]], default_spend); (ObState false [[ms_mk 0]], default_spend);
+      (ObState true [[ms_mk 2; ms_mk 0]], default_spend); (ObPushed true, default_spend) ].
+Proof. repeat split; vm_compute; reflexivity. Qed.
+
+(* a replace-by-fee spend over a dict hand-off into a wallet with other settings, then on as raw hex: same spend *)
+Example m_signers_committed_any_settings_example :
+  map fst (cs_run 2 1 (cs_init rbf_spend [[0; 1; 2]]) [CSign (Some 0); CHand HDict true; CSign (Some 1); CHand HRaw false; CSend]) =
+    [ (ObState false [[ms_mk 0]], rbf_spend); (ObState false [[ms_mk 0]], rbf_spend);
+      (ObState true [[ms_mk 0; ms_mk 1]], rbf_spend); (ObState true [[ms_mk 0; ms_mk 1]], rbf_spend);
+      (ObPushed true, rbf_spend) ].
+Proof. vm_compute. reflexivity. Qed.
+
+(* several inputs: the transaction verifies exactly when EVERY input does (not the first, not the last) ... *)
+Theorem tx_verifies_iff_every_input : forall m ins,
+  fst (ms_tx_verify m ins) = forallb (fun x => fst (ms_input_verify (mi_keys x) (mi_sigs x) m)) ins.
+Proof. exact tx_verify_all_lemma. Qed.
+
+(* ... and an input does exactly when at least m of the cosigners that signed IT own one of its keys *)
+Theorem input_verifies_iff_m_signers : forall keys S m, NoDup keys -> (1 <= m)%nat ->
+  fst (ms_input_verify keys (ms_sigs_of keys S) m) = Nat.leb m (length (filter (fun k => ms_mem k S) keys)).
+Proof. exact input_verify_count. Qed.
+
+(* two inputs on two addresses, a watch-only wallet, cosigners 0 and 1 sign with the child keys of the SECOND address
+   only: the last input is complete, the first has no signature: not verified, not pushed; then they sign the first *)
+Example partial_inputs_example :
+  map fst (cs_run 2 1 (cs_init (tf_with_locktime 7 rbf_spend) [[0; 1; 2]; [2; 0; 1]])
+             [CSignKey 0 [false; true]; CSignKey 1 [false; true]; CSend;
+              CSignKey 1 [true; false]; CHand HObject true; CSignKey 0 [true; false]; CSend]) =
+    let f := tf_with_locktime 7 rbf_spend in
+    [ (ObState false [[]; [ms_mk 0]], f); (ObState false [[]; [ms_mk 0; ms_mk 1]], f); (ObPushed false, f);
+      (ObState false [[ms_mk 1]; [ms_mk 0; ms_mk 1]], f); (ObState false [[ms_mk 1]; [ms_mk 0; ms_mk 1]], f);
+      (ObState true [[ms_mk 0; ms_mk 1]; [ms_mk 0; ms_mk 1]], f); (ObPushed true, f) ].
+Proof. vm_compute. reflexivity. Qed.
+
 Print Assumptions bytes_order_is_bip67.
 Print Assumptions redeem_perm_invariant.
 Print Assumptions redeem_is_spec.
@@ -133,3 +248,12 @@ Print Assumptions path_agreement_45.
 Print Assumptions cosigner_order_agreement.
 Print Assumptions m_signers_suffice.
 Print Assumptions signature_count_is_distinct_cosigners.
+Print Assumptions create_signals_rbf.
+Print Assumptions create_no_rbf_unasked.
+Print Assumptions create_locktime_enforced.
+Print Assumptions create_inputs.
+Print Assumptions create_amounts.
+Print Assumptions handoff_preserves_committed_fields.
+Print Assumptions m_signers_suffice_committed.
+Print Assumptions tx_verifies_iff_every_input.
+Print Assumptions input_verifies_iff_m_signers.
